@@ -414,3 +414,5 @@ for _p in ("C01", "C02", "C03", "C10", "C11", "C12", "C13"):
     n("%s-n-register-lock" % _p.lower(), _p, *_LOCKFIX)
 # ... and holding that lock across the runner's blocking hop is what O11.6 exists for
 m("c11-register-lock-across-hop", "C11", "O11.6", _LOCKFIX[0], (R + "meta_runner.py", "            for payload in payloads:\n                self._logger.debug(\n                    \"registering payload %s (%s)\", NameRepr(payload), NameRepr(flavour)\n                )\n                runner.register_payload(payload)\n", "            with self._registration_lock:\n                for payload in payloads:\n                    runner.register_payload(payload)\n"), (R + "meta_runner.py", "        return self._runners[flavour].run_payload(payload)", "        with self._registration_lock:\n            return self._runners[flavour].run_payload(payload)"))
+m("revert-fix-C12-stale-runners", "C12", "O12.4", (R + "meta_runner.py", "            self.running.clear()\n            # all runners have ended: registrations for the next run are queued again\n            self._runners.clear()\n", "            self.running.clear()\n"))
+m("revert-fix-C01-stale-runners", "C01", "O1.10", (R + "meta_runner.py", "            self.running.clear()\n            # all runners have ended: registrations for the next run are queued again\n            self._runners.clear()\n", "            self.running.clear()\n"))
